@@ -37,6 +37,7 @@ fn main() {
             "MERGE" => modelops::run_merge(&case),
             "CLEANUP" => modelops::run_cleanup(&case),
             "C12" => c12::run(&case),
+            "C12M" => c12::run_multi(&case),
             "C13" => c13::run(&case),
             "C17" => c17::run(&case),
             "C14" | "C15" => modops::run(&case),
